@@ -159,6 +159,8 @@ void prop_gen(Ctx &c) {
 				else if (kind < 8) { l.push_back(std::string("RRULE:FREQ=") + F[f] + ";COUNT=" + std::to_string(cnt)); l.push_back(std::string("RRULE:FREQ=") + F[(f + 1) % 3] + ";INTERVAL=" + std::to_string(iv) + ";COUNT=" + std::to_string(1 + cnt / 2)); if (kind == 7) l.push_back("RRULE:FREQ=DAILY;INTERVAL=2;COUNT=" + std::to_string(cnt)); }
 				else if (kind < 9) l.push_back(std::string("RRULE:FREQ=") + F[f] + ";INTERVAL=" + std::to_string(iv));      // infinite
 				else l.push_back("RRULE:FREQ=DAILY;COUNT=1");                                                                // ends at once
+				// 1 rule event in 5 is an all-day event (UIDs of their own): an all-day occurrence starts its day, before any timed one of that date
+				if (kind >= 3 && (std::get<3>(e) + (int)i) % 5 == 0) { for (auto &x : l) { size_t hp = x.find("FREQ=HOURLY"); if (hp != std::string::npos) x.replace(hp, 11, "FREQ=DAILY"); } body += sc::vevent("d" + std::to_string(std::get<1>(e)) + "@c03", start, true, l); continue; }
 				body += sc::vevent(uid, start, false, l);
 			}
 			cs.ics = sc::vcal(body);
